@@ -15,7 +15,10 @@
    Restrictions of the modelled grammar (stated, enforced by the generator):
    two-body decays; $top and $finals given; final-state names pairwise different; a dict
    inside a candidate list has depth 1; values of included files for a key already present
-   are property dicts; no particle is its own ancestor (chain_decay would not terminate). *)
+   are property dicts; no particle is its own ancestor (chain_decay would not terminate).
+   A resonance may be a candidate of several slots (the generator does this for slots that are not
+   nested).  The model describes _do_include_dict and decay_cut AFTER their repair (patch_9 / patch_1
+   of the C19 fix round); the behaviour before is kept as do_include_old / decay_table_old. *)
 From Coq Require Import List Arith ZArith Bool.
 From TFV Require Import Comb.LS.
 Import ListNotations.
@@ -110,8 +113,28 @@ Record config := mkC {
   c_includes : list psection             (* contents of the $include files, in order *)
 }.
 
-(* _do_include_dict(d, s) *)
+(* _do_include_dict(d, s), one property dict: the included dict without the keys the entry already
+   has, followed by the entry's own keys (`new = {k: v for k in s[i] if k not in d[i]};
+   new.update(d[i])`; the keys of a dict are pairwise different, so update appends).
+   The position matters: rename_params lets the LAST of m0 / mass win. *)
+Definition pkey_mem (k : pkey) (p : props) : bool := existsb (fun kv => pkey_eqb k (fst kv)) p.
+Definition merge_props (sp dp : props) : props :=
+  filter (fun kv => negb (pkey_mem (fst kv) dp)) sp ++ dp.
 Definition do_include (d s : psection) : psection :=
+  fold_left (fun d iv =>
+               let '(i, sv) := iv in
+               match dget Z.eqb d i with
+               | Some (PVProps dp) =>
+                   match sv with
+                   | PVProps sp => dset Z.eqb d i (PVProps (merge_props sp dp))
+                   | PVList _ => d
+                   end
+               | Some (PVList _) => d
+               | None => dset Z.eqb d i sv
+               end) s d.
+(* before the repair (`s[i].update(d[i]); d[i] = s[i]`): the keys kept the positions they had in
+   the included dict - see Config_proofs.include_old_alias_refuted *)
+Definition do_include_old (d s : psection) : psection :=
   fold_left (fun d iv =>
                let '(i, sv) := iv in
                match dget Z.eqb d i with
@@ -312,6 +335,32 @@ Definition trainable_of_chains (pr : pprop_t) (chs : list ochain) : list pname :
                                     ++ (if 2 <=? float_mask pr (fst p) then [PWidth p] else [])) (inner_of oc))
            (combine (seq 0 (length chs)) chs).
 
+(* ------------------------------------------------------------------ decay lists after the cut *)
+(* get_decay_struct creates one decay object per (core:id, outs:id) and appends it to core.decay (and to
+   the creators of its daughters); decay_cut (repaired) leaves exactly the decays of the kept chains *)
+Definition sdec := (pid * list pid)%type.
+Definition all_sdecs (chs : list ochain) : list sdec := flat_map chain_struct chs.
+Definition pid_eqb0 (a b : pid) : bool := (fst a =? fst b) && (snd a =? snd b).
+Definition decays_of_particle (chs : list ochain) (p : pid) : list sdec :=
+  filter (fun d => pid_eqb0 (fst d) p) (all_sdecs chs).
+(* before the repair: in every enumerated chain only the first decay without (l,s) was taken out of its
+   mother's list; the decays above it stayed (Config_proofs.cut_old_phantom) *)
+Fixpoint first_failing (oc : ochain) : option sdec :=
+  match oc with
+  | [] => None
+  | d :: r => if nonempty (snd d) then first_failing r else Some (fst d)
+  end.
+Definition sdec_eqb0 (a b : sdec) : bool :=
+  pid_eqb0 (fst a) (fst b)
+  && (fix go (x y : list pid) : bool :=
+        match x, y with [], [] => true | u :: x', v :: y' => pid_eqb0 u v && go x' y' | _, _ => false end) (snd a) (snd b).
+Definition decay_table_old (c : config) : list sdec :=
+  let all := map (annotate (snd (particle_item c))) (raw_chains c) in
+  let removed := flat_map (fun oc => match first_failing oc with Some d => [d] | None => [] end) all in
+  filter (fun d => negb (existsb (sdec_eqb0 d) removed)) (all_sdecs all).
+Definition in_some_chain (chs : list ochain) (d : sdec) : bool :=
+  existsb (fun oc => existsb (sdec_eqb0 d) (chain_struct oc)) chs.
+
 (* ================================================================== evaluation helpers *)
 Definition pid_eqb (a b : pid) : bool := (fst a =? fst b) && (snd a =? snd b).
 Fixpoint leqb {A} (eqb : A -> A -> bool) (x y : list A) : bool :=
@@ -351,3 +400,11 @@ Definition pinfo_ok (c : config) (obs : list (name * (Z * Z * option Z * option 
   forallb (fun x => let '(n, (j, p, cc, m, w)) := x in
                     let i := pinfo_of pr n in
                     (p_J i =? j) && (p_P i =? p) && optz_eqb (p_C i) cc && optz_eqb (p_mass i) m && optz_eqb (p_width i) w) obs.
+
+(* the decay lists of the particles of the loaded chains (as sets) *)
+Definition sdecs_ok (c : config) (impl : list sdec) : bool :=
+  match load_chains c with
+  | Some chs => let m := all_sdecs chs in
+                forallb (fun x => existsb (sdec_eqb0 x) impl) m && forallb (fun x => existsb (sdec_eqb0 x) m) impl
+  | None => false
+  end.
